@@ -24,6 +24,7 @@ use cameleon::{Camera, ControlError, DeviceControl};
 use cameleon_device::u3v::sim::{self, Edit, Ev, Reply, TxPlan, World};
 
 mod strm;
+mod cam;
 
 pub enum Tok {
     I(i128),
@@ -337,6 +338,7 @@ fn main() {
         let r = catch_unwind(AssertUnwindSafe(|| match kind {
             "ctl" => run_ctl(&mut c),
             "strm" => strm::run(&mut c),
+            "cam16" => cam::run(&mut c),
             _ => vec![-99],
         }));
         let out = r.unwrap_or_else(|_| vec![-98]);
